@@ -221,4 +221,10 @@ def rule_readiness(ctx):
         ctx.check(ok, R, "finished-origin", "is_finished / can_proceed report exactly the finished flag", loc=body_loc(fin))
 
 
-RULES = [rule_tables, rule_increment, rule_readiness]
+def rule_atomic_emissions(ctx):
+    """R03.0 (= R02.1): chunks and the terminator are emitted all-or-nothing (inside try_write, rolled back on failure)"""
+    from .rules_c02 import rule_atomicity
+    rule_atomicity(ctx)
+
+
+RULES = [rule_atomic_emissions, rule_tables, rule_increment, rule_readiness]
